@@ -292,9 +292,14 @@ def history_c07(case, inc, spec, code, events, end, rundir, res):
             for s in job["streams"]:
                 for t in old["streams"]:
                     if (s["entropy"], s["key"]) == (t["entropy"], t["key"]) or s["state"] == t["state"]:
-                        if job["restarted"] and (job["restart_locked"] > 0 or led.get("interrupted")):
+                        if old["inc"] == inc:
+                            # two jobs of one incarnation: never explained by the known finding
+                            site = ("restart_several_workers_initiation" if job["restarted"] and
+                                    job["workers"] > 1 else "same_incarnation")
+                        elif job["restarted"] and (job["restart_locked"] > 0 or led.get("interrupted")):
                             # the spawn counter is rebuilt from cstep alone: once a history contains
-                            # an interruption with jobs in flight it under-counts for ever after
+                            # an interruption with jobs in flight it under-counts for ever after, so a
+                            # job may repeat the stream of a job consumed in an EARLIER incarnation
                             site = "restart_with_inflight_jobs"
                         elif job["restarted"] and job["workers"] > 1 and old["inc"] == inc:
                             site = "restart_several_workers_initiation"
